@@ -6,6 +6,7 @@ import (
 	"io"
 
 	"github.com/ipld/go-car/v2/internal/carv1"
+	internalio "github.com/ipld/go-car/v2/internal/io"
 )
 
 type CarV1Reader = carv1.CarReader
@@ -21,3 +22,8 @@ func NewCarV1ReaderWithoutDefaults(r io.Reader, zeroLenAsEOF bool, maxHeader, ma
 }
 func LoadCarV1(s carv1.Store, r io.Reader) (*carv1.CarHeader, error) { return carv1.LoadCar(s, r) }
 func ReadHeaderV1(r io.Reader, max uint64) (*carv1.CarHeader, error) { return carv1.ReadHeader(r, max) }
+
+// SetWriteHook installs the write seam hook (only exists with -tags verif).
+func SetWriteHook(h func(w io.WriterAt, p []byte, off int64) (n int, err error, handled bool)) {
+	internalio.VerifWriteHook = h
+}
